@@ -7,6 +7,11 @@ import sys
 import joblib
 from vlib import gen_obj
 
+class Rev:
+    def shuffle(self, items):
+        items.reverse()
+
+
 specs_file, out_file, perm_seed = sys.argv[1], sys.argv[2], int(sys.argv[3])
 specs = json.load(open(specs_file))
 out = []
@@ -20,6 +25,9 @@ for idx, spec in specs:
         row["md5_again"] = joblib.hash(a)      # same object again
         c = gen_obj.build(spec, random.Random(perm_seed * 7919 + idx), strpool={})
         row["md5_shared_strings"] = joblib.hash(c)   # equal strings are one object instead of distinct ones
+        # spec order and its reverse: generators write some members in ascending order, which a sort sees as one run
+        row["md5_spec"] = joblib.hash(gen_obj.build(spec, None))
+        row["md5_rev"] = joblib.hash(gen_obj.build(spec, Rev()))
         row["sha1"] = joblib.hash(a, hash_name="sha1")
         row["sha1_b"] = joblib.hash(b, hash_name="sha1")
     except Exception as e:  # noqa
